@@ -135,7 +135,7 @@ pub fn history_strategy() -> impl Strategy<Value = History> {
         }).prop_map(move |steps| History {
             cfg: DevCfg { region: REGIONS[ri], join_bias: None, front, board: (14, 0) },
             activation: Activation::Abp { fcnt_up: start, fcnt_down: None },
-            board: Board { nb_async_tx: nb_async, ..Default::default() },
+            board: Board { nb_async_tx: nb_async, nb_meddle: crate::gen::meddle_pattern(seed), ..Default::default() },
             rng_script: vec![],
             rng_seed: seed,
             steps,
